@@ -3,7 +3,9 @@
 // the real code, writes one case line per tree for the extracted Coq model, and checks the
 // property itself on the implementation (oracle, no model involved).
 //
-// Case line:  T <tree> | <err> <enclen> <bytes> <dec> <equal> | <decoded tree>
+// Case line:  T <tree> | <err> <enclen> <bytes> <dec> <equal> <dirty> | <decoded tree>
+//
+//	dirty  1 if AppendTo over every destination with non-zero spare capacity gave prefix ++ ToBytes
 //
 //	err    1 if item.Error() != nil (then the other fields are "-")
 //	bytes  hex of ToBytes (digest when long), dec = ok|err for Decode(ToBytes)
@@ -23,8 +25,58 @@ import (
 )
 
 type runner struct {
-	c *vh.Ctx
-	r *rand.Rand
+	c       *vh.Ctx
+	r       *rand.Rand
+	scratch []byte // destination with DIRTY spare capacity for the AppendTo pass
+	recycle []byte // one buffer re-used across cases: buf = item.AppendTo(buf[:0])
+}
+
+// dirtyAppend runs AppendTo over destinations whose spare capacity holds non-zero bytes (0xFF,
+// 0x5A, random) behind prefixes of length 0, 1 and 7, and over a buffer recycled from the
+// previous cases (buf = item.AppendTo(buf[:0])). Every result must be prefix ++ enc byte for
+// byte, with the prefix untouched. Returns a description of the first deviation, or "".
+func (x *runner) dirtyAppend(it secs2.Item, enc []byte) string {
+	for k, p := range []int{0, 1, 7} {
+		need := p + len(enc) + 9
+		if k == 1 {
+			need = p + len(enc) // spare capacity exactly the encoded length
+		}
+		if cap(x.scratch) < need {
+			x.scratch = make([]byte, need+need/2)
+		}
+		buf := x.scratch[:need:need]
+		switch k {
+		case 0:
+			for i := range buf {
+				buf[i] = 0xff
+			}
+		case 1:
+			for i := range buf {
+				buf[i] = 0x5a
+			}
+		default:
+			for i := range buf {
+				buf[i] = byte(1 + x.r.Intn(255))
+			}
+		}
+		prefix := append([]byte(nil), buf[:p]...)
+		got := it.AppendTo(buf[:p])
+		if len(got) != p+len(enc) || !bytes.Equal(got[:p], prefix) {
+			return fmt.Sprintf("AppendTo(dst with spare capacity pre-filled with non-zero bytes) changed the prefix or has the wrong length|dst len %d", p)
+		}
+		if !bytes.Equal(got[p:], enc) {
+			i := 0
+			for i < len(enc) && got[p+i] == enc[i] {
+				i++
+			}
+			return fmt.Sprintf("AppendTo(dst with spare capacity pre-filled with non-zero bytes) is not dst ++ ToBytes|dst len %d, first difference at encoding offset %d: got %02x want %02x", p, i, got[p+i], enc[i])
+		}
+	}
+	x.recycle = it.AppendTo(x.recycle[:0])
+	if !bytes.Equal(x.recycle, enc) {
+		return "recycled buffer (buf = item.AppendTo(buf[:0]) after earlier encodes) differs from ToBytes"
+	}
+	return ""
 }
 
 func (x *runner) one(n *s2t.Node, class string) {
@@ -52,7 +104,8 @@ func (x *runner) one(n *s2t.Node, class string) {
 		equal = vh.B01(secs2.Equal(it, dec))
 		decTree = s2t.Digest(s2t.ShowString(dec))
 	}
-	line := fmt.Sprintf("T %s | 0 %d %s %s %s | %s", spec, encLen, s2t.HexDigest(enc), decStatus, equal, decTree)
+	dirty := x.dirtyAppend(it, enc)
+	line := fmt.Sprintf("T %s | 0 %d %s %s %s %s | %s", spec, encLen, s2t.HexDigest(enc), decStatus, equal, vh.B01(dirty == ""), decTree)
 	c.Case(line, key, n.Count() > 0)
 	c.Count("outcome/decode-" + decStatus)
 	if x.r.Intn(3) == 0 {
@@ -70,6 +123,10 @@ func (x *runner) one(n *s2t.Node, class string) {
 	}
 	if again := it.ToBytes(); !bytes.Equal(again, enc) {
 		fail("ToBytes is not deterministic")
+	}
+	if dirty != "" {
+		what, detail, _ := strings.Cut(dirty, "|")
+		c.Fail(what, "T "+trunc(spec)+" ("+detail+")")
 	}
 	// AppendTo: exact-capacity prefix, and a prefix with spare capacity holding sentinel bytes
 	prefix := []byte{0xde, 0xad, 0xbe, 0xef, 0x00, 0xff}
